@@ -77,10 +77,23 @@ impl WriteCircuitBreaker {
                 let now = current_timestamp();
                 let last_failure = self.last_failure_time.load(Ordering::Acquire);
 
-                if now - last_failure >= self.recovery_timeout.as_millis() as u64 {
-                    // Transition to half-open to test recovery
-                    self.transition_to_half_open();
-                    true
+                // A failure recorded after `now` was read makes `last_failure` the larger one
+                if now.saturating_sub(last_failure) >= self.recovery_timeout.as_millis() as u64 {
+                    // Transition to half-open to test recovery. The request that performs the
+                    // transition is itself the first test call
+                    if self.transition_to_half_open(1) {
+                        return true;
+                    }
+                    // Another thread changed the state first: be admitted under its rules
+                    match self.current_state() {
+                        CircuitState::Closed => true,
+                        CircuitState::Open => false,
+                        CircuitState::HalfOpen => {
+                            let current_calls =
+                                self.half_open_call_count.fetch_add(1, Ordering::AcqRel);
+                            current_calls < self.half_open_max_calls
+                        }
+                    }
                 } else {
                     false // Still in failure mode
                 }
@@ -112,7 +125,7 @@ impl WriteCircuitBreaker {
             }
             CircuitState::Open => {
                 // This shouldn't happen, but if it does, transition to half-open
-                self.transition_to_half_open();
+                self.transition_to_half_open(0);
             }
         }
     }
@@ -148,7 +161,7 @@ impl WriteCircuitBreaker {
             CircuitState::Open => {
                 let now = current_timestamp();
                 let last_failure = self.last_failure_time.load(Ordering::Acquire);
-                let elapsed = Duration::from_millis(now - last_failure);
+                let elapsed = Duration::from_millis(now.saturating_sub(last_failure));
 
                 if elapsed >= self.recovery_timeout {
                     Some(Duration::ZERO) // Ready to recover now
@@ -182,17 +195,27 @@ impl WriteCircuitBreaker {
         self.half_open_success_count.store(0, Ordering::Release);
     }
 
-    fn transition_to_half_open(&self) {
+    /// Returns whether this call performed the transition. `initial_calls` is the number of
+    /// test calls already admitted by the caller (1 for the request that triggers recovery).
+    fn transition_to_half_open(&self, initial_calls: u32) -> bool {
         // Only transition if we're currently Open
-        let _ = self.state.compare_exchange(
-            CircuitState::Open as u8,
-            CircuitState::HalfOpen as u8,
-            Ordering::AcqRel,
-            Ordering::Acquire,
-        );
-        // Reset half-open counters
-        self.half_open_call_count.store(0, Ordering::Release);
-        self.half_open_success_count.store(0, Ordering::Release);
+        let transitioned = self
+            .state
+            .compare_exchange(
+                CircuitState::Open as u8,
+                CircuitState::HalfOpen as u8,
+                Ordering::AcqRel,
+                Ordering::Acquire,
+            )
+            .is_ok();
+        if transitioned {
+            // Reset half-open counters (only by the thread that made the transition, or the
+            // calls other threads have been admitted for since would be forgotten)
+            self.half_open_call_count
+                .store(initial_calls, Ordering::Release);
+            self.half_open_success_count.store(0, Ordering::Release);
+        }
+        transitioned
     }
 
     fn transition_to_closed(&self) {
